@@ -20,6 +20,7 @@ const (
 	FInvalid                   // invalid UTF-8
 	FSGR                       // terminal escape sequences
 	FNUL                       // the NUL byte on its own
+	FEdge                      // valid code points that code likes to mistake for something else: U+FFFD (the decoder's error value), noncharacters, the last code point, encoding-length boundaries, U+2028/2029/NEL, VT, FF, information separators, DEL
 )
 
 var atoms = map[Fam][]string{
@@ -36,9 +37,10 @@ var atoms = map[Fam][]string{
 	FInvalid:   {"\x80", "\xbf", "\xc3", "\xe2\x82", "\xf0\x9f\x98", "\xff", "\xfe", "\xc0\xaf", "\xed\xa0\x80", "\xf8\x88\x80\x80\x80", "a\xffb"},
 	FSGR:       {"\x1b[1m", "\x1b[0m", "\x1b[31m", "\x1b[38;5;200m", "\x1b[m"},
 	FNUL:       {"\x00", "a\x00b"},
+	FEdge:      {"\ufffd", "a\ufffdb", "\ufffd\ufffd", "\uffff", "\ufffe", "\U0010ffff", "\ue000", "\u0080", "\u07ff", "\u0800", "\U00010000", "\u2028", "\u2029", "\u0085", "\v", "\f", "\x1c", "\x1f", "\x7f", "\u00a0", "\ufdd0"},
 }
 
-var famOrder = []Fam{FAscii, FNewline, FCR, FWide, FCombining, FZero, FEmoji, FCSV, FHTML, FMD, FInvalid, FSGR, FNUL}
+var famOrder = []Fam{FAscii, FNewline, FCR, FWide, FCombining, FZero, FEmoji, FCSV, FHTML, FMD, FInvalid, FSGR, FNUL, FEdge}
 
 // Atoms returns all atoms of the families in f (ascii first).
 func Atoms(f Fam) []string {
